@@ -79,6 +79,9 @@ def gen(seed, run, tier='quick'):
         # once more with the type column mixed up - all of it rejected
         ops.append(['bulk_terms', rng.choice([40, 150])])
     return {'cfg': {'variant': variant, 'fault_free': fault_free,
+                    # the precision of the standard decimal context of the
+                    # thread (the library works with decimalfp, not with it)
+                    'decimal_prec': rng.choice([28, 28, 6, 3]),
                     'amount': rng.choice(['3', '7/3', '1/7', '12.5',
                                           '1000000'])},
             'ops': ops}
@@ -104,6 +107,8 @@ def execute(h):
 
     kf = KnownFindings()
     cfg, ops = h['cfg'], h['ops']
+    import decimal
+    decimal.getcontext().prec = cfg.get('decimal_prec', 28)
     model = decl.RefDir()
     env = decl.Env()
     if cfg['variant'] == 'predefined':
